@@ -161,7 +161,7 @@ Proof.
         -- apply andb_true_iff in Eg. destruct Eg as [Eg E3]. apply andb_true_iff in Eg. destruct Eg as [E1 E2].
            inversion H; subst; clear H. eexists; split; [reflexivity|]. split; [|reflexivity]. simpl.
            eapply LP_gc; eauto. apply negb_true_iff; auto. apply negb_true_iff; auto. apply is_nil_true; auto.
-        -- destruct (f_removed x); [|discriminate].
+        -- destruct (f_removed x || f_listed x); [|discriminate].
            inversion H; subst; clear H. eexists; split; [reflexivity|]. split; [|reflexivity]. apply LP_skip.
       * inversion H; subst; clear H. eexists; split; [reflexivity|]. split; [|reflexivity]. apply LP_skip.
     + (* Merge *)
